@@ -96,6 +96,11 @@ def main():
     for r in results:
         inconclusive += ['%s: %s' % (r.unit, i) for i in r.inconclusive]
         failures += [f for f in r.failures if prop in f['props']]
+        # failed obligations that no label attributes to a property leave every property that uses the
+        # unit undecided (exit 2) - unless a labelled clause of this property failed as well
+        for f in r.failures:
+            if not f['props']:
+                inconclusive.append('%s: unattributed proof obligation failed (undecided, not a violation): %s' % (r.unit, f['obligation']))
     known = load_known()
     known_names = {k['obligation']: k for k in known.get('findings', []) if k.get('property') == prop}
     new_fail = [f for f in failures if f['obligation'] not in known_names]
